@@ -101,10 +101,14 @@ KWH = [0.0005, 0.3, 0.5, 0.8, 1.4, 60.0]
 
 # ------------------------------------------------------------------ generation
 
-def _case(stations, sessions, early, seed=None, script=None, sched="gen", factory=None, hashseeds=None):
+def _case(stations, sessions, early, seed=None, script=None, sched="gen", factory=None, hashseeds=None, crash=None):
     c = {"stations": stations, "sessions": sessions, "early": early, "seed": seed, "script": script, "sched": sched}
     if factory is not None:
         c["factory"] = factory
+    if crash is not None:
+        # the first Simulator.run() is made to raise in period t (the scheduler raises / hands out a rate no EVSE
+        # accepts), then run() is called AGAIN on the same simulator object
+        c["crash"] = crash
     if hashseeds:
         c["hashseeds"] = list(hashseeds)
     return c
@@ -118,6 +122,12 @@ def _pick_hashseeds(rng, tier):
     if tier == "thorough":
         return sorted(rng.sample(HASHSEEDS, 3))
     return sorted(rng.sample(HASHSEEDS[:3], 2))
+
+
+def _gen_crash(rng, H, p):
+    if rng.random() >= p:
+        return None
+    return {"t": rng.randint(0, H), "kind": rng.choice(["raise", "raise", "rate"]), "amps": 40.0}
 
 
 def _gen_sessions(rng, n, H, stations, kwhs=None):
@@ -150,12 +160,15 @@ def _gen_case(rng, tier):
     H = rng.choice([3, 4, 6, 9]) if r < 0.8 else rng.choice([12, 20])
     sessions = _gen_sessions(rng, n, H, stations)
     early = rng.random() < 0.7
-    sched = rng.choice(["gen", "gen", "gen", "alt", "zero"])
+    # mostly the harness' scheduler; also the package's own algorithms on the unconstrained hand-built network
+    sched = rng.choice(["gen", "gen", "gen", "gen", "gen", "alt", "alt", "zero", "zero", "unc", "rr", "llf"])
     # one hand-built case in twelve is also run in other interpreter processes
     hs = _pick_hashseeds(rng, tier) if rng.random() < 1 / 12 else None
+    crash = _gen_crash(rng, H, 0.12)
     if rng.random() < 0.2:
-        return _case(stations, sessions, early, script=[rng.randint(0, 3) for _ in range(n)], sched=sched, hashseeds=hs)
-    return _case(stations, sessions, early, seed=rng.randint(0, 10 ** 6), sched=sched, hashseeds=hs)
+        return _case(stations, sessions, early, script=[rng.randint(0, 3) for _ in range(n)], sched=sched, hashseeds=hs,
+                     crash=crash)
+    return _case(stations, sessions, early, seed=rng.randint(0, 10 ** 6), sched=sched, hashseeds=hs, crash=crash)
 
 
 # ---- networks built by the package's own factories -------------------------------------------
@@ -233,10 +246,11 @@ def _gen_factory(rng, tier, big=False):
     scheds = ["gen", "gen", "gen", "alt", "zero", "unc", "rr"] + (["fcfs", "edf", "llf"] if basic else [])
     sched = rng.choice(scheds)
     hs = _pick_hashseeds(rng, tier)
+    crash = _gen_crash(rng, H, 0.15)
     if rng.random() < 0.15:
         return _case(stations, sessions, early, script=[rng.randint(0, 7) for _ in range(len(sessions))], sched=sched,
-                     factory=fac, hashseeds=hs)
-    return _case(stations, sessions, early, seed=rng.randint(0, 10 ** 6), sched=sched, factory=fac, hashseeds=hs)
+                     factory=fac, hashseeds=hs, crash=crash)
+    return _case(stations, sessions, early, seed=rng.randint(0, 10 ** 6), sched=sched, factory=fac, hashseeds=hs, crash=crash)
 
 
 def _exhaustive():
@@ -287,6 +301,19 @@ def corpus():
               factory={"kind": "office001_acn", "basic": True, "voltage": 208.0, "cap": 10}),
         # the same hand-built network in other processes
         _case(["st-2", "st-1", "st-0"], crowd[:8], True, seed=5, hashseeds=[101, 202]),
+        # crash + second run() on the same object: the scheduler raises while two EVs wait behind a satisfied one;
+        # a rate no EVSE accepts (the apply stage raises, twice)
+        _case(["A"], [S("a", 0, 5, 0.3), S("b", 1, 4, 0.3), S("c", 1, 2, 0.3), S("d", 2, 6)], True, seed=2,
+              crash={"t": 1, "kind": "raise", "amps": 40.0}),
+        _case(["A", "B"], [S("a", 0, 3, 0.3), S("b", 0, 3), S("c", 0, 1), S("d", 1, 4, 0.0005), S("e", 1, 2)], True, seed=3,
+              crash={"t": 2, "kind": "raise", "amps": 40.0}),
+        _case(["A", "B"], [S("a", 0, 3, 0.3), S("b", 0, 3), S("c", 0, 1), S("d", 1, 4, 0.0005), S("e", 1, 2)], True, seed=3,
+              crash={"t": 1, "kind": "rate", "amps": 40.0}),
+        _case(ca6[:4], crowd[:9], True, seed=7, sched="edf", hashseeds=[202, 303],
+              factory={"kind": "simple_acn", "ids": ca6[:4], "evse_type": "BASIC", "voltage": 208.0, "cap": 10},
+              crash={"t": 3, "kind": "raise", "amps": 40.0}),
+        # an idle period (everybody on a station is satisfied, 0 A) while somebody waits: the hook must still run
+        _case(["A"], [S("a", 0, 6, 0.3), S("b", 1, 6, 0.3), S("c", 2, 6, 0.3)], True, seed=1, sched="unc"),
     ]
 
 
@@ -453,6 +480,60 @@ def _make_sched(mode):
     return alg
 
 
+class _Crash(Exception):
+    """the injected scheduler failure"""
+
+
+def _arm_crash(alg, crash):
+    """period t: the scheduler raises (once: the second run() gets an answer) / hands out a rate no EVSE accepts"""
+    orig = alg.schedule
+    state = {"armed": True}
+
+    def schedule(active_sessions):
+        if alg.interface.current_time == crash["t"]:
+            if crash["kind"] == "raise":
+                if state["armed"]:
+                    state["armed"] = False
+                    raise _Crash()
+            else:
+                return {s.station_id: [float(crash["amps"])] for s in active_sessions}
+        return orig(active_sessions)
+
+    alg.schedule = schedule
+
+
+def _kind_of(evse):
+    from acnportal.acnsim.models.evse import DeadbandEVSE, FiniteRatesEVSE
+    if isinstance(evse, FiniteRatesEVSE):
+        return {"t": "finite", "rates": [I.enc(float(x)) for x in evse.allowable_rates]}
+    if isinstance(evse, DeadbandEVSE):
+        return {"t": "deadband", "db": I.enc(float(evse._deadband_end)), "max": I.enc(float(evse._max_rate))}
+    return {"t": "cont", "min": I.enc(float(evse._min_rate)), "max": I.enc(float(evse._max_rate))}
+
+
+def _net_desc(net, iface):
+    """STATIC description of the network (what was registered: EVSE classes, voltages, constraint rows, limits,
+    phases), read once; the full-simulator model takes nothing else from the implementation but the random draws"""
+    import numpy as np
+    info = iface.infrastructure_info()
+    ph = np.deg2rad(info.phases)
+    return {"stations": [{"id": sid, "kind": _kind_of(e), "V": float(net._voltages[i])}
+                         for i, (sid, e) in enumerate(net._EVSEs.items())],
+            "M": [[float(x) for x in row] for row in info.constraint_matrix],
+            "lims": [float(x) for x in info.constraint_limits],
+            "cos": [float(x) for x in np.cos(ph)], "sin": [float(x) for x in np.sin(ph)]}
+
+
+def _run_err(sim):
+    try:
+        sim.run()
+    except _Crash:
+        return "SchedulerFailed"
+    except Exception as e:  # noqa
+        return I.err_name(e)
+    return None
+
+
 @contextlib.contextmanager
 def _choice_patch(script, log):
     orig = _random.choice
@@ -486,17 +567,28 @@ def _run_once(case, patch=True):
         log["evs"][s["id"]] = ev
         events.append(PluginEvent(s["arrival"], ev))
     net, snap = _make_net(case, log)
-    sim = Simulator(net, _make_sched(case.get("sched", "gen")), EventQueue(events), START, period=PERIOD, verbose=False)
+    alg = _make_sched(case.get("sched", "gen"))
+    sim = Simulator(net, alg, EventQueue(events), START, period=PERIOD, verbose=False)
+    desc = _net_desc(net, alg.interface)
+    crash = case.get("crash")
+    if crash:
+        _arm_crash(alg, crash)
     if case.get("seed") is not None:
         _random.seed(case["seed"])
-    err = None
     ctx = _choice_patch(case.get("script"), log) if patch else contextlib.nullcontext()
+    extra = {}
     with ctx:
-        try:
-            sim.run()
-        except Exception as e:  # noqa
-            err = I.err_name(e)
+        err = _run_err(sim)
+        if crash:
+            # what the raise left behind, then run() again on the same object
+            extra = {"err1": err, "abort": None if err is None else {
+                "iter": int(sim.iteration), "trace_len": len(log["trace"]), "snap": snap(net),
+                "energy": {k: float(v.energy_delivered) for k, v in sorted(log["evs"].items())},
+                "evse_pilot": [float(e.current_pilot) for e in net._EVSEs.values()]}}
+            err = _run_err(sim)
     return {
+        **extra,
+        "net_desc": desc,
         "err": err,
         "trace": log["trace"],
         "charges": log.get("charges", []),
@@ -776,6 +868,24 @@ def model_request(case, obs):
             req["sim"] = {"V": f2b(VOLT), "period": f2b(PERIOD), "amps": f2b(32.0), "max_rate": f2b(32.0),
                           "mode": case.get("sched", "gen"), "batt": [f2b(100.0), f2b(0.0), f2b(50.0)],
                           "evs": [{"id": s["id"], "kwh": f2b(I.num(s["kwh"]))} for s in case["sessions"]]}
+    # the FULL simulator model with the PACKAGE'S OWN algorithm (or the harness' scheduler) as its scheduler, on the
+    # network as registered (hand-built or factory-built: EVSE classes, voltages, constraint rows are static inputs):
+    # fully_charged, early departures, queue, counters, energies all computed by the model; the only input taken from
+    # the run is the stream of random choices.  Also answers crash + second run() cases (phases).
+    nd = obs.get("net_desc")
+    if nd is not None:
+        sched = case.get("sched", "gen")
+        req["simreal"] = {
+            "stations": [{"id": st["id"], "kind": I.kind_wire(st["kind"]), "V": f2b(st["V"])} for st in nd["stations"]],
+            "evs": [I.ev_wire({"session": s["id"], "station": s["st0"] if s["st0"] is not None else "",
+                               "arrival": s["arrival"], "departure": s["departure"], "requested": s["kwh"],
+                               "batt": {"two": False, "cap": 100.0, "init": 0.0, "maxp": 50.0}}) for s in case["sessions"]],
+            "recomputes": [], "max_recompute": 1, "period": f2b(PERIOD), "noise": [],
+            "infra": {"M": [[f2b(x) for x in r] for r in nd["M"]], "lims": [f2b(x) for x in nd["lims"]],
+                      "cos": [f2b(x) for x in nd["cos"]], "sin": [f2b(x) for x in nd["sin"]]},
+            "algo": sched, "amps": f2b(32.0), "inc": f2b(1.0),
+            "crash": None if not case.get("crash") else {"t": case["crash"]["t"], "kind": case["crash"]["kind"],
+                                                         "amps": f2b(float(case["crash"]["amps"]))}}
     return req
 
 
@@ -811,6 +921,20 @@ def compare(case, obs, model):
                 break
         if len(obs["steps"]) != len(model["steps"]):
             out.append("number of steps differs")
+        return out
+    lr = model.get("loop_simreal")
+    if lr is None:
+        out.append("the full-simulator model with the real algorithm did not answer")
+    else:
+        posts_ = [st for st in obs["trace"] if st["op"] == "post"]
+        _cmp_sim(obs, lr, obs["trace"], posts_, out, tag="real-algorithm sim loop")
+        if lr["ev_history"] != obs["ev_history"] or lr["arrivals"] != obs["ev_history"]:
+            out.append(f"real-algorithm sim loop: ev_history impl={obs['ev_history']} model={lr['ev_history']}/{lr['arrivals']}")
+        if case.get("crash"):
+            _cmp_crash(obs, lr, out)
+    if case.get("crash") and obs.get("err") is not None:
+        # the run stops for good inside a period (the apply stage raises in both run() calls): the models that do not
+        # know about the crash have nothing to say; the phase model above has been compared in full
         return out
     if obs["err"] != model["err"]:
         out.append(f"error impl={obs['err']} model={model['err']}")
@@ -882,44 +1006,75 @@ def compare(case, obs, model):
 def _cmp_mat(name, a, m, out):
     m = [[b2f(x) for x in row] for row in m]
     if [len(r) for r in a] != [len(r) for r in m]:
-        out.append(f"sim loop: {name} shape impl={[len(r) for r in a]} model={[len(r) for r in m]}")
+        out.append(f"{name} shape impl={[len(r) for r in a]} model={[len(r) for r in m]}")
         return
     for i, (ra, rm) in enumerate(zip(a, m)):
         for t, (x, y) in enumerate(zip(ra, rm)):
             if not close(x, y):
-                out.append(f"sim loop: {name}[station {i}, period {t}] impl={x} model={y}")
+                out.append(f"{name}[station {i}, period {t}] impl={x} model={y}")
                 return
 
 
-def _cmp_sim(obs, ls, tr, posts, out):
+def _cmp_crash(obs, lr, out):
+    """crash + second run(): error of the first run(), and the state the raise left behind (network snapshot,
+    iteration, energies, EVSE pilots)"""
+    tag = "crash"
+    e1 = (lr["errs"] or [None])[0]
+    if e1 != obs.get("err1"):
+        out.append(f"{tag}: first run() error impl={obs.get('err1')} model={e1}")
+        return
+    ab = obs.get("abort")
+    if ab is None:
+        if lr["aborts"]:
+            out.append(f"{tag}: model aborts at {lr['aborts'][0]['iter']}, implementation does not")
+        return
+    if not lr["aborts"]:
+        out.append(f"{tag}: implementation aborts at iteration {ab['iter']}, model does not")
+        return
+    m = lr["aborts"][0]
+    if m["iter"] != ab["iter"]:
+        out.append(f"{tag}: iteration at the abort impl={ab['iter']} model={m['iter']}")
+    _cmp_snap(ab["snap"], m["state"]["snap"], f"{tag}: state at the abort", out, blank_none=True)
+    for x, bits in m["state"]["delivered"]:
+        if not close(ab["energy"][x], b2f(bits)):
+            out.append(f"{tag}: energy delivered to {x} at the abort impl={ab['energy'][x]} model={b2f(bits)}")
+    mp = [b2f(b) for b in m["state"]["evse_pilot"]]
+    if len(mp) != len(ab["evse_pilot"]) or not all(close(x, y) for x, y in zip(ab["evse_pilot"], mp)):
+        out.append(f"{tag}: EVSE.current_pilot at the abort impl={ab['evse_pilot']} model={mp}")
+
+
+def _cmp_sim(obs, ls, tr, posts, out, tag="sim loop"):
     n0 = len(out)
+    posts = [st["snap"] for st in tr if st["op"] == "post"]
     if ls["err"] != obs["err"]:
-        out.append(f"sim loop: error impl={obs['err']} model={ls['err']}")
+        out.append(f"{tag}: error impl={obs['err']} model={ls['err']}")
     if [list(e) for e in ls["events"]] != [list(e) for e in obs["events"]]:
-        out.append(f"sim loop: event_history impl={obs['events']} model={ls['events']}")
+        out.append(f"{tag}: event_history impl={obs['events']} model={ls['events']}")
     if obs["err"] is None and (ls["iterations"] != obs["iterations"] or not ls["queue_empty"]):
-        out.append(f"sim loop: iterations impl={obs['iterations']} model={ls['iterations']} queue_empty={ls['queue_empty']}")
+        out.append(f"{tag}: iterations impl={obs['iterations']} model={ls['iterations']} queue_empty={ls['queue_empty']}")
     if len(posts) != len(ls["periods"]):
-        out.append(f"sim loop: periods impl={len(posts)} model={len(ls['periods'])}")
+        out.append(f"{tag}: periods impl={len(posts)} model={len(ls['periods'])}")
     post_steps = [st for st in tr if st["op"] == "post"]
     for t, (a, m) in enumerate(zip(post_steps, ls["periods"])):
-        _cmp_snap(a["snap"], m["snap"], f"sim loop period {t}", out, blank_none=True)
+        _cmp_snap(a["snap"], m["snap"], f"{tag} period {t}", out, blank_none=True)
         for x, bits in m["delivered"]:
             if not close(a["energy"][x], b2f(bits)):
-                out.append(f"sim loop period {t}: energy delivered to {x} impl={a['energy'][x]} model={b2f(bits)}")
+                out.append(f"{tag} period {t}: energy delivered to {x} impl={a['energy'][x]} model={b2f(bits)}")
         mp = [b2f(b) for b in m["evse_pilot"]]
         if len(mp) != len(a["evse_pilot"]) or not all(close(x, y) for x, y in zip(a["evse_pilot"], mp)):
-            out.append(f"sim loop period {t}: EVSE.current_pilot impl={a['evse_pilot']} model={mp}")
+            out.append(f"{tag} period {t}: EVSE.current_pilot impl={a['evse_pilot']} model={mp}")
         if len(out) - n0 > 8:
             return
-    _cmp_snap(obs["final"], ls["final"], "sim loop final", out, blank_none=True)
+    _cmp_snap(obs["final"], ls["final"], f"{tag} final", out, blank_none=True)
     if ls["final"]["draws"] != len(obs["choices"]):
-        out.append(f"sim loop: random.choice calls impl={len(obs['choices'])} model={ls['final']['draws']}")
+        out.append(f"{tag}: random.choice calls impl={len(obs['choices'])} model={ls['final']['draws']}")
     for x, bits in ls["delivered"]:
         if not close(obs["delivered"][x], b2f(bits)):
-            out.append(f"sim loop: energy delivered to {x} impl={obs['delivered'][x]} model={b2f(bits)}")
-    _cmp_mat("pilot_signals", obs["pilots"], ls["pilots"], out)
-    _cmp_mat("charging_rates", obs["rates"], ls["rates"], out)
+            out.append(f"{tag}: energy delivered to {x} impl={obs['delivered'][x]} model={b2f(bits)}")
+    if obs["err"] is not None and ls["iterations"] != obs["iterations"]:
+        out.append(f"{tag}: iteration at the raise impl={obs['iterations']} model={ls['iterations']}")
+    _cmp_mat(f"{tag}: pilot_signals", obs["pilots"], ls["pilots"], out)
+    _cmp_mat(f"{tag}: charging_rates", obs["rates"], ls["rates"], out)
 
 
 # ------------------------------------------------------------------ property oracle
@@ -951,7 +1106,15 @@ def oracle(case, obs):
             fails.append({"kind": kind, "detail": detail})
 
     sess = {s["id"]: s for s in case["sessions"]}
-    if obs["err"] is not None:
+    crash = case.get("crash")
+    injected = None if not crash else ("SchedulerFailed" if crash["kind"] == "raise" else "InvalidRate")
+    if crash:
+        # the first run() may only stop by the injected failure; after a scheduler failure the second run() completes
+        if obs.get("err1") not in (None, injected):
+            bad("run_raised", f"first Simulator.run raised {obs.get('err1')} (injected: {injected})")
+        if obs["err"] is not None and not (crash["kind"] == "rate" and obs["err"] == injected):
+            bad("run_raised", f"second Simulator.run raised {obs['err']} after the injected {injected}")
+    elif obs["err"] is not None:
         bad("run_raised", f"Simulator.run raised {obs['err']} on a well-formed history")
     # the history the simulator processed is the protocol: every session plugged at arrival, unplugged at departure
     evs = obs["events"]
@@ -1157,6 +1320,23 @@ def features(case, obs):
         prev_w = st["snap"]["waiting"]
     if obs["err"]:
         out.append("err:" + obs["err"])
+    if obs.get("net_desc") is not None:
+        out.append("full_sim_model:" + ("real_algorithm" if case.get("sched", "gen") in REAL_ALGOS else "harness_scheduler")
+                   + (":factory" if fac else ":hand_built"))
+    cr = case.get("crash")
+    if cr:
+        out.append("crash:" + cr["kind"] + (":fired" if obs.get("err1") else ":not_reached"))
+        ab = obs.get("abort")
+        if ab and ab["snap"]["waiting"]:
+            out.append("crash:somebody_waiting_at_the_abort")
+        if obs.get("err1") and obs["err"] is None:
+            out.append("crash:second_run_completed")
+    # idle charged periods (aggregate current 0) in which the hook nevertheless had work to do
+    for c in obs.get("charges", []):
+        t = c["t"]
+        if c["full"] and c["waiting"] and all((row[t] if t < len(row) else 0.0) == 0.0 for row in obs.get("rates", [])):
+            out.append("idle_period_with_satisfied_and_waiting")
+            break
     return sorted(set(out))
 
 
